@@ -5,7 +5,6 @@ import (
 	"fmt"
 	"go/ast"
 	"os"
-	"os/exec"
 	"sort"
 	"strconv"
 	"strings"
@@ -44,11 +43,12 @@ var c16Keys = []c16Kind{
 	{"a.b", func() jen.Code { return jen.Id("a").Dot("b") }, "a.b", false},
 	{"Id(ab)", func() jen.Code { return jen.Id("ab") }, "ab", false},
 	{"K{A:Qual(a/f),B:Qual(b/f)}", func() jen.Code {
-		return jen.Id("K").Values(jen.Dict{jen.Id("A"): jen.Qual("a/f", "P"), jen.Id("B"): jen.Qual("b/f", "Q")})
+		return jen.Id("K").Values(jen.Dict{c16K(jen.Id("A")): jen.Qual("a/f", "P"), c16K(jen.Id("B")): jen.Qual("b/f", "Q")})
 	}, "K{A:@<a/f>.P,B:@<b/f>.Q}", false},
 	{"K{A:f0,B:Qual(b/f)}", func() jen.Code {
-		return jen.Id("K").Values(jen.Dict{jen.Id("A"): jen.Id("f0"), jen.Id("B"): jen.Qual("b/f", "R")})
+		return jen.Id("K").Values(jen.Dict{c16K(jen.Id("A")): jen.Id("f0"), c16K(jen.Id("B")): jen.Qual("b/f", "R")})
 	}, "K{A:f0,B:@<b/f>.R}", false},
+	{"Id(z)", func() jen.Code { return jen.Id("z") }, "z", false},
 }
 
 var c16Vals = []c16Kind{
@@ -60,6 +60,24 @@ var c16Vals = []c16Kind{
 	{"Dict{}", func() jen.Code { return jen.Values(jen.Dict{jen.Null(): jen.Lit(2)}) }, "{}", false},
 	{"Lit(long..a)", func() jen.Code { return jen.Lit(c16Long + "a") }, `"` + c16Long + `a"`, false},
 	{"Lit(long..b)", func() jen.Code { return jen.Lit(c16Long + "b") }, `"` + c16Long + `b"`, false},
+	// a nested Dict whose own key order depends on the name its qualified key gets (f.A < f0 < f1.A)
+	{"{Qual(a/f,A):1,f0:2}", func() jen.Code {
+		return jen.Values(jen.Dict{c16K(jen.Qual("a/f", "A")): jen.Lit(1), c16K(jen.Id("f0")): jen.Lit(2)})
+	}, "{#sort(@<a/f>.A:1|f0:2)#}", false},
+	// text that looks like the start of a comment, inside a literal
+	{"Lit(a // b)", func() jen.Code { return jen.Lit("a // b") }, `"a//b"`, false},
+	{"Lit(/*)", func() jen.Code { return jen.Lit("/* x") }, `"/*x"`, false},
+}
+
+// c16K enrols the key of a nested Dict with the controller of the execution being built
+// (executions under environment control are sequential within a process).
+var c16CurCtl *env.Controller
+
+func c16K(c jen.Code) jen.Code {
+	if c16CurCtl != nil {
+		c16CurCtl.Key(c)
+	}
+	return c
 }
 
 var c16Long = strings.Repeat("0123456789", 40)
@@ -104,6 +122,10 @@ func c16Render(d c16Dict, ctl *env.Controller) jh.Outcome { return c16RenderVari
 const c16Variants = 3
 
 func c16RenderVariant(d c16Dict, ctl *env.Controller, variant int) jh.Outcome {
+	if ctl != nil {
+		c16CurCtl = ctl
+		defer func() { c16CurCtl = nil }()
+	}
 	dict := jen.Dict{}
 	for _, p := range d.Pairs {
 		k := c16Keys[p[0]].make()
@@ -178,10 +200,21 @@ func c16Judge(d c16Dict, o jh.Outcome) string {
 		for {
 			i := strings.Index(t, "@<")
 			if i < 0 {
-				return t
+				break
 			}
 			j := strings.Index(t[i:], ">")
 			t = t[:i] + names[t[i+2:i+j]] + t[i+j+1:]
+		}
+		// #sort(a|b|c)#: the alternatives in the order of their (expanded) text, comma separated
+		for {
+			i := strings.Index(t, "#sort(")
+			if i < 0 {
+				return t
+			}
+			j := strings.Index(t[i:], ")#")
+			alts := strings.Split(t[i+6:i+j], "|")
+			sort.Strings(alts)
+			t = t[:i] + strings.Join(alts, ",") + t[i+j+2:]
 		}
 	}
 	var want []string
@@ -283,6 +316,9 @@ func c16Space(tier ev.Tier) []c16Dict {
 	// keys that are composite literals built with nested Dicts, next to qualified keys; equal keys
 	// with long values that differ only at their end
 	ds = append(ds, c16Over(3, []int{2, 3, 4, 9, 10}, []int{0, 2, 6, 7})...)
+	// nested Dicts whose key order depends on import names settled by the enclosing Dict; values
+	// that contain comment markers inside string literals
+	ds = append(ds, c16Over(3, []int{1, 3, 4, 11}, []int{0, 8, 9, 10})...)
 	return ds
 }
 
@@ -478,7 +514,7 @@ func runC16(r *ev.Recorder) {
 				wg.Add(1)
 				go func() {
 					defer wg.Done()
-					out, err := exec.Command(self, "c16shard", string(r.Tier), fmt.Sprint(i), fmt.Sprint(nshards)).Output()
+					out, err := shardCommand(self, "c16shard", string(r.Tier), fmt.Sprint(i), fmt.Sprint(nshards)).Output()
 					if err != nil || json.Unmarshal(out, &results[i]) != nil {
 						fmt.Fprintf(os.Stderr, "C16: shard %d failed: %v\n%s\n", i, err, jh.Short(string(out), 2000))
 						os.Exit(2)
